@@ -168,6 +168,10 @@ def check_case(ctx, cs):
                     u1 = unit(d1)
                     if ok and u1 is not None and not close_seq(list(r[1]), u1, 1e-8):
                         ctx.violate("operations.tangent", tg + ["normalize"], small, {"expected": u1, "got": r})
+                    # several parameters in one call: one (point, vector) pair per parameter, in order
+                    ok, r = _try(ctx, "operations.tangent", tg + ["param_list"], small, lambda: operations.tangent(obj, [arg, arg], normalize=False))
+                    if ok and not (len(r) == 2 and all(len(x) == 2 and close_seq(list(x[0]), p0, 1e-8) and close_seq(list(x[1]), d1, 1e-8) for x in r)):
+                        ctx.violate("operations.tangent", tg + ["param_list"], small, {"expected": [[p0, d1]] * 2, "got": r})
             else:
                 if len(D) >= 2 and len(D[0]) >= 2:
                     p0, du, dv = fl(frv(D[0][0])), fl(frv(D[1][0])), fl(frv(D[0][1]))
@@ -178,6 +182,13 @@ def check_case(ctx, cs):
                     ok, r = _try(ctx, "operations.normal", tg, small, lambda: operations.normal(obj, list(prm), normalize=False))
                     if ok and not (close_seq(list(r[0]), p0, 1e-8) and close_seq(list(r[1]), n, 1e-7)):
                         ctx.violate("operations.normal", tg, small, {"expected": [p0, n], "got": r})
+                    ok, r = _try(ctx, "operations.tangent", tg + ["param_list"], small, lambda: operations.tangent(obj, [list(prm), list(prm)], normalize=False))
+                    if ok and not (len(r) == 2 and all(len(x) == 3 and close_seq(list(x[0]), p0, 1e-8) and close_seq(list(x[1]), du, 1e-8)
+                                                       and close_seq(list(x[2]), dv, 1e-8) for x in r)):
+                        ctx.violate("operations.tangent", tg + ["param_list"], small, {"expected": [[p0, du, dv]] * 2, "got": r})
+                    ok, r = _try(ctx, "operations.normal", tg + ["param_list"], small, lambda: operations.normal(obj, [list(prm), list(prm)], normalize=False))
+                    if ok and not (len(r) == 2 and all(len(x) == 2 and close_seq(list(x[0]), p0, 1e-8) and close_seq(list(x[1]), n, 1e-7) for x in r)):
+                        ctx.violate("operations.normal", tg + ["param_list"], small, {"expected": [[p0, n]] * 2, "got": r})
                     un = unit(n)
                     if un is not None and math.sqrt(sum(x * x for x in n)) > 1e-6:
                         ok, r = _try(ctx, "operations.normal", tg + ["normalize"], small, lambda: operations.normal(obj, list(prm), normalize=True))
